@@ -12,7 +12,7 @@ P("C35",
              "exactly its inserted entries, in order, once, every non-ignored field unchanged, no buffer left. c35_no_panic: no call panics when names are distinct and every entry has its table's shape with storable plain and string location fields. c35_location_bijection: ids "
              "are 1..n in row order, strings distinct, every stored id is a key. c35_value_domain_refuted (uint64 >= 2^63, complex: known "
              "findings). c35_concurrent_old_refuted: two witness schedules of the pre-fix InsertData||Flush (double BEGIN panic; silently "
-             "lost entry); c35_concurrent_fixed_3: exhaustive over all schedules of 3 inserters, batch 1..4, for the fixed locking.",
+             "lost entry); c35_concurrent_fixed / c35_concurrent_fixed_exactly_once: for ANY number of goroutines, any InsertData/Flush calls, any batch size and EVERY schedule of the fixed code (lock; BEGIN; writes; COMMIT; unlock): no panic (no BEGIN inside / COMMIT outside a transaction), the mutex holder is the only goroutine between BEGIN and COMMIT, the recorder is the sequential recorder applied to the completed calls in effect order (linearizability), and after all goroutines finish and Close runs each table holds exactly the multiset of entries inserted into it; c35_concurrent_fixed_3 kept as an exhaustive regression example.",
   level_note="partial: database/sql + SQLite value mapping assumed to be the identity on the storable domain (checked on every run by the "
              "read-back tie); one connection / one transaction flag assumed for the concurrent model.",
   assumptions=["database/sql + glebarez/go-sqlite store and return int64, uint64 < 2^63, bool, float64, float32 (as float64) and strings without NUL unchanged",
